@@ -383,6 +383,8 @@ def run(ctx):
     # ---- random structured
     n_cases = 600 if quick else 6000
     nmax = 40 if quick else 120
+    # source hints: bandwidth b, target frequencies (absolute, and relative to a grid frequency) at / around every new float constant
+    hv_b, hv_f = gen.hint_values(ctx, 5.0, 100.0, cap=12), gen.hint_values(ctx, 1e-4, 1e4, cap=16, maps=(lambda c: c, lambda c: 1 / c))
     for i in range(n_cases):
         n = gen.log_int(rng, 2, nmax)
         zero_bin = rng.random() < 0.6
@@ -394,6 +396,11 @@ def run(ctx):
         tk = rng.choice(['None', 'inside', 'outside', 'on-grid', 'mixed', 'logspace'])
         band = rng.choice(BANDS) if rng.random() < 0.7 else round(rng.uniform(5, 100), 3)
         sm = targets(rng, fs, tk)
+        if hv_b and rng.random() < 0.2:
+            band = rng.choice(hv_b)
+        if hv_f and rng.random() < 0.25:
+            fm = float(fs[rng.randrange(len(fs))])
+            sm = np.sort(np.array([r * fm for r in rng.sample(hv_f, min(len(hv_f), 3))] + [r for r in hv_f if float(fs[0]) / 100 <= r <= float(fs[-1]) * 100][:3] + [fm]))
         small = len(fs) * (len(fs) if sm is None else len(sm)) <= 400
         array_case(ctx, sk + '/' + tk, g, spectrum(rng, n, sk), sm, band, small)
         if i % 100 == 99:
@@ -476,6 +483,9 @@ def extras(ctx):
     from eqsig.fns import frequency as fq
     rng = ctx.rng
     sizes = [(8192, 600)] if ctx.tier == 'quick' else [(8192, 600), (16384, 300), (4096, 1100), (2304, None)]
+    # source hints: numbers of Fourier bins / of targets around every new integer constant, and target counts that put the number of weights just above it
+    sizes = sizes + [(m, 50) for m in gen.hint_sizes(ctx, lo=121, hi=70000, cap=4)] + [(2048, m) for m in gen.hint_sizes(ctx, lo=13, hi=4000, cap=3)] + \
+        [(8192, c // 8192 + 1) for c in gen.hint_sizes(ctx, lo=2 ** 18, hi=2 ** 24, cap=2)]
     for n_fa, n_sm in sizes:
         dt = 0.01
         fs = np.arange(n_fa) / (2 * n_fa * dt)
@@ -605,7 +615,8 @@ def x2_large_object(ctx):
     rng = ctx.rng
     quick = ctx.tier == 'quick'
     for npts, n_sm, cls_name in ([(12000, None, 'Signal'), (9000, 130, 'AccSignal')] if quick else
-                                 [(40000, None, 'Signal'), (9000, 300, 'AccSignal'), (20000, 120, 'AccSignal'), (5001, 700, 'Signal'), (60000, 40, 'AccSignal')]):
+                                 [(40000, None, 'Signal'), (9000, 300, 'AccSignal'), (20000, 120, 'AccSignal'), (5001, 700, 'Signal'), (60000, 40, 'AccSignal')]) + \
+            [(m, 60, 'AccSignal') for m in gen.hint_sizes(ctx, lo=1001, hi=100000, cap=3, halves=True)]:      # source hints: record lengths around every new integer constant
         dt = rng.choice([0.01, 0.005, 0.02])
         v = gen.noise_record(rng, npts) * np.exp(-((np.arange(npts) - npts / 3) / (npts / 5)) ** 2) + 0.2 * np.sin(2 * math.pi * rng.uniform(1.0, 8.0) * dt * np.arange(npts))
         nyq = 0.5 / dt
